@@ -49,7 +49,50 @@ def cases(tier, seed):
     # LocalBackend (results arrive in polled batches, a STOP cuts the rest of the batch, jobs fail / end by themselves)
     for i in range(400 if tier == "quick" else 8000):
         out.append({"engine": "R", "seed": seed * 7919 + i * 13 + 7})
+    # the repository's own Hyperband tests, run with the Rung contracts on (stv/pytest_contracts.py)
+    out.insert(0, {"engine": "suite"})
     return out
+
+
+SUITE_FILES = ["tst/schedulers/test_hyperband.py", "tst/schedulers/test_pasha.py", "tst/schedulers/test_hyperband_cost_promotion.py",
+               "tst/schedulers/transfer_learning/test_rush.py", "tst/callbacks/test_hyperband_remove_checkpoints.py",
+               "tst/test_schedulers.py", "tst/test_random_seed.py"]
+
+
+def case_timeout(spec):
+    return 900 if spec.get("engine") == "suite" else CASE_TIMEOUT
+
+
+def run_suite_with_contracts(spec):
+    import json
+    import os
+    import subprocess
+    import sys
+    import tempfile
+
+    o = Obs()
+    out = tempfile.mktemp(prefix="stv_contract_", suffix=".json", dir="/dev/shm")
+    env = dict(os.environ, STV_CONTRACT_OUT=out, PYTHONPATH=os.path.dirname(os.path.dirname(os.path.dirname(os.path.abspath(__file__)))))
+    files = [f for f in SUITE_FILES if os.path.exists(os.path.join(envshim.REPO, f))]
+    try:
+        pr = subprocess.run([sys.executable, "-m", "pytest", "-q", "-p", "no:cacheprovider", "-p", "stv.pytest_contracts", "--timeout=600",
+                             "--continue-on-collection-errors"] + files, cwd=envshim.REPO, env=env, capture_output=True, text=True, timeout=800)
+        d = json.load(open(out))
+    except Exception as e:  # noqa: BLE001
+        o.inconclusive("suite_with_contracts_not_run:" + type(e).__name__)
+        return o.result()
+    finally:
+        if os.path.exists(out):
+            os.unlink(out)
+    o.count("suite:runs")
+    for k, v in d["counters"].items():
+        o.count("suite:" + k, v)
+    for v in d["violations"]:
+        o.violate(v["clause"], "suite:" + v["mechanism"], v["detail"])
+    tail = pr.stdout.strip().splitlines()[-1:] if pr.stdout else []
+    o.set_sig(("suite", sorted(d["counters"].items())), nontrivial=d["counters"].get("contract:Rung", 0) > 0)
+    o.sample = {"engine": "suite", "files": files, "pytest_summary": tail, "contract_evaluations": d["counters"]}
+    return o.result()
 
 
 def floors(tier):
@@ -72,6 +115,8 @@ def floors(tier):
         "decided:skipped_rung_level": 300 * k,
         "R:runs": 300 * k,
         "R:decided:rung_n>=2": 3000 * k,
+        "suite:contract:Rung": 1000,
+        "suite:contract:Rung.quantile": 100,
     }
 
 
@@ -244,6 +289,8 @@ def run_case(spec):
 
     if spec.get("engine") == "R":
         return run_engine_r(spec)
+    if spec.get("engine") == "suite":
+        return run_suite_with_contracts(spec)
     o = Obs()
     p = expand(spec)
     space = gen.build_space(p["space"])
